@@ -92,6 +92,10 @@ type Req struct {
 	Class       string // discovery | storage | read | mutation
 	N           int    // 1-based index among the agent's non-discovery requests
 	Body        []byte `json:"-"`
+	// PreOwner is filled by the server for PATCH/PUT/DELETE on an existing object: the helm
+	// ownership metadata the object carried BEFORE the request was applied, as
+	// "managed-by|release-name|release-namespace" ("-" = the object did not exist).
+	PreOwner string
 }
 
 // Key returns the store key addressed by the request ("" for lists / discovery).
@@ -119,6 +123,7 @@ type Event struct {
 	Code     int
 	Injected bool   // response was produced by a fault plan
 	Cut      bool   // request was dropped by a cut plan (not applied)
+	PreOwner string // see Req.PreOwner (done events of PATCH/PUT/DELETE)
 	Note     string // for Phase == note
 	What     string   // note kind: Wait | WaitWithJobs | WatchUntilReady | WaitForDelete | oob | ...
 	Names    []string // resource names the note is about
@@ -485,6 +490,9 @@ func (s *Server) event(r *Req, phase string, code int, injected, cut bool) Event
 	if r.Res != nil {
 		e.Kind = r.Res.Kind
 	}
+	if phase == "done" {
+		e.PreOwner = r.PreOwner
+	}
 	return e
 }
 
@@ -605,6 +613,17 @@ func (s *Server) handle(req *http.Request, r *Req) (int, []byte, bool) {
 	return code, mustJSON(out), false
 }
 
+// ownerOf renders the helm ownership metadata of an object: managed-by|release-name|release-namespace.
+func ownerOf(o map[string]any) string {
+	md, _ := o["metadata"].(map[string]any)
+	get := func(m any, k string) string {
+		mm, _ := m.(map[string]any)
+		v, _ := mm[k].(string)
+		return v
+	}
+	return get(md["labels"], "app.kubernetes.io/managed-by") + "|" + get(md["annotations"], "meta.helm.sh/release-name") + "|" + get(md["annotations"], "meta.helm.sh/release-namespace")
+}
+
 func faultReason(code int) string {
 	switch code {
 	case 403:
@@ -627,6 +646,12 @@ func (s *Server) apply(req *http.Request, r *Req) (int, any) {
 	apiVersion := res.GV()
 	notFound := func(n string) (int, any) {
 		return 404, status(404, "NotFound", fmt.Sprintf("%s %q not found", plural, n))
+	}
+	if r.Method == "PATCH" || r.Method == "PUT" || r.Method == "DELETE" {
+		r.PreOwner = "-"
+		if cur, ok := s.objs[key(r.Name)]; ok {
+			r.PreOwner = ownerOf(cur)
+		}
 	}
 	switch r.Method {
 	case "GET":
